@@ -67,7 +67,7 @@ Section Publishing.
 
   (* the subscriber's reaction of the model and the one of the generated world *)
   Definition react_rel (reenter : pst N -> payload N -> pst N) (gre : gst -> payload N -> gst) : Prop :=
-    forall y r q, er (reenter (emb y r) q) = emb (gre y q) [].
+    forall y r q, g_raised y = false -> er (reenter (emb y r) q) = emb (gre y q) [].
 
   Section Fire.
     Variable E : genv.
@@ -75,11 +75,12 @@ Section Publishing.
     Hypothesis Hre : react_rel reenter (e_react E).
 
     Lemma deliver_emb j v x r :
+      g_raised x = false ->
       er (deliver N reenter j v (emb x r)) = emb (py_notify_listener inj E j v x) [].
     Proof.
-      unfold deliver, py_notify_listener. destruct x as [s q t ra nf]. cbn.
+      intros R. unfold deliver, py_notify_listener. destruct x as [s q t ra nf]. cbn in *.
       destruct q as [|[p|] q]; cbn; try reflexivity.
-      exact (Hre (mkG s q (mkPub j v (inj s) :: t) ra nf) r p).
+      exact (Hre (mkG s q (mkPub j v (inj s) :: t) ra nf) r p R).
     Qed.
 
     Lemma fire_one_emb p x r j v :
@@ -88,7 +89,7 @@ Section Publishing.
     Proof.
       intros R <-. unfold fire_one, py_fire. cbn [Gen_SimStats.emb ps_raised ps_state]. rewrite R.
       destruct (pv_raises N _); [destruct x; reflexivity|].
-      destruct (memn j (e_lsub E)); [apply deliver_emb|reflexivity].
+      destruct (memn j (e_lsub E)); [apply deliver_emb, R|reflexivity].
     Qed.
 
     Lemma fold_fire_raised p js : forall y, ps_raised y = true ->
@@ -126,26 +127,27 @@ Section Publishing.
       intros H. unfold reg_body. cbn [log_op Gen_SimStats.emb ps_state]. rewrite H. destruct x; reflexivity.
     Qed.
 
-    (* EventBased*.register: the ordinary register, then -- if anybody listens -- the events *)
-    Lemma reg_body_emb tm ext x r p (o : outcome S) (FE : gst -> gst) :
+    (* EventBased*.register on an object in which no exception propagates: the ordinary register, then --
+       if anybody listens -- the events ([FE]); in this normal form, whatever shape the source has *)
+    Definition reg_spec (o : outcome S) (FE : gst -> gst) (x : gst) : gst :=
+      match o with
+      | Exn _ s' => py_raise (set_gstate s' x)
+      | Ok s' => match e_lsub E with [] => set_gstate s' x | _ => FE (set_gstate s' x) end
+      end.
+
+    Lemma reg_body_spec tm ext x r p (o : outcome S) (FE : gst -> gst) :
+      g_raised x = false ->
       sreg N tm (inj (g_state x)) p = omap inj o ->
       (forall x1 r1, g_raised x1 = false ->
          er (fire_all N (e_lsub E) reenter p (emb x1 r1)) = emb (FE x1) []) ->
-      er (reg_body N (e_lsub E) tm reenter ext (emb x r) p)
-      = emb (py_then (py_plain o x) (fun x_1 => if py_has_listeners E then FE x_1 else x_1)) [].
+      er (reg_body N (e_lsub E) tm reenter ext (emb x r) p) = emb (reg_spec o FE x) [].
     Proof.
-      intros Ho Hf. unfold reg_body. cbn [log_op Gen_SimStats.emb ps_state]. rewrite Ho.
-      destruct o as [s'|e s']; cbn [omap py_plain].
-      - unfold py_then, py_has_listeners. cbn [set_gstate g_raised].
-        destruct (e_lsub E) as [|l0 ls] eqn:L.
-        + destruct x as [s q t ra nf]; cbn. destruct ra; reflexivity.
-        + rewrite <- L in Hf |- *. destruct (g_raised x) eqn:R.
-          * unfold fire_all. rewrite fold_fire_raised; [|exact R].
-            destruct x as [s q t ra nf]; cbn in *. rewrite R. reflexivity.
-          * exact (Hf (set_gstate s' x) ((ext, SReg tm p) :: r) R).
+      intros R Ho Hf. unfold reg_body, reg_spec. cbn [log_op Gen_SimStats.emb ps_state]. rewrite Ho.
+      destruct o as [s'|e s']; cbn [omap].
+      - destruct (e_lsub E) as [|l0 ls] eqn:L; [destruct x; reflexivity|].
+        rewrite <- L in Hf |- *. exact (Hf (set_gstate s' x) ((ext, SReg tm p) :: r) R).
       - destruct x; reflexivity.
     Qed.
-
   End Fire.
 
   (* EventBased*.initialize *)
@@ -159,7 +161,7 @@ Section Publishing.
     intros Hre Hs -> R. unfold pinit. cbn [log_op set_state Gen_SimStats.emb ps_state]. rewrite Hs.
     unfold py_then, py_plain, py_fire. cbn [set_gstate g_raised pv_raises]. rewrite R.
     destruct (memn EV_INIT (e_lsub E)); [|destruct x; reflexivity].
-    exact (deliver_emb E _ Hre EV_INIT PVSelf (set_gstate s0 x) ((true, SInit) :: r)).
+    exact (deliver_emb E _ Hre EV_INIT PVSelf (set_gstate s0 x) ((true, SInit) :: r) R).
   Qed.
 End Publishing.
 Arguments er {N} _.
@@ -171,10 +173,19 @@ Ltac pub_val :=
           | |- pubval _ (SP (g_state ?x)) _ _ = _ => destruct x as [[? ? ? ? ?] ? ? ? ?]; reflexivity
           end ].
 
+(* v = self.getter(); self.fire(E, v): the fire would have noticed the raise itself *)
+Lemma py_eval_fire_then N S (inj : S -> sstate N) E j v x (k : gst N S -> gst N S) :
+  py_eval v x (py_then (py_fire inj E j v x) k) = py_then (py_fire inj E j v x) k.
+Proof. unfold py_eval, py_fire, py_then. destruct (pv_raises N v); [destruct x; reflexivity|reflexivity]. Qed.
+Lemma py_eval_fire N S (inj : S -> sstate N) E j v x : py_eval v x (py_fire inj E j v x) = py_fire inj E j v x.
+Proof. unfold py_eval, py_fire. destruct (pv_raises N v); reflexivity. Qed.
+
 (* a chain of fires, event by event *)
 Ltac fire_chain Hre :=
   unfold py_fire_timed;
-  repeat (apply (fold_fire_step _ _ _ _ _ Hre); [assumption | pub_val | intros ? ? ?]);
+  repeat (cbv beta zeta; rewrite ?py_eval_fire_then;
+          apply (fold_fire_step _ _ _ _ _ Hre); [assumption | pub_val | intros ? ? ?]);
+  cbv beta zeta; rewrite ?py_eval_fire;
   apply (fold_fire_last _ _ _ _ _ Hre); [assumption | pub_val].
 
 (* what WeightedTally.register refuses, it refuses without touching the state *)
@@ -213,14 +224,18 @@ Section Counter.
   Qed.
 
   Theorem gen_EventBasedCounter_register_eq (E : genv) re tm ext p x r :
-    rel re (e_react E) ->
+    rel re (e_react E) -> g_raised x = false ->
     er (reg_body N (e_lsub E) tm re ext (emb SC x r) p) = emb SC (gen_EventBasedCounter_register N E x (p_c p)) [].
   Proof.
-    intros Hre. unfold gen_EventBasedCounter_register.
-    apply (reg_body_emb N _ SC E re tm ext x r p (cregister (g_state x) (p_c p))
-             (fun x1 => gen_EventBasedCounter__fire_events N E x1 (p_c p))).
-    - reflexivity.
-    - intros x1 r1 R1. apply gen_EventBasedCounter__fire_events_eq; assumption.
+    intros Hre R.
+    rewrite (reg_body_spec N _ SC E re tm ext x r p (cregister (g_state x) (p_c p))
+               (fun x1 => gen_EventBasedCounter__fire_events N E x1 (p_c p)) R);
+      [|reflexivity|intros x1 r1 R1; apply gen_EventBasedCounter__fire_events_eq; assumption].
+    f_equal. destruct x as [s q t ra nf]. cbn [g_raised] in R. subst ra.
+    unfold gen_EventBasedCounter_register, reg_spec, py_has_listeners. cbv zeta. cbn [g_state].
+    destruct (cregister s (p_c p)); destruct (e_lsub E);
+      cbv beta iota zeta delta [py_then py_plain py_raise set_gstate g_raised g_state g_q g_tr g_nofuel negb andb orb];
+      reflexivity.
   Qed.
 
   (* the subscriber's reaction: register from inside notify, at most [fuel] deep *)
@@ -233,9 +248,9 @@ Section Counter.
   Lemma gen_react_EventBasedCounter_rel fuel lsub tm types :
     rel (fun y q => preg N fuel lsub tm false y q) (gen_react_EventBasedCounter fuel lsub tm types).
   Proof.
-    induction fuel as [|f IH]; intros y r q; cbn [preg gen_react_EventBasedCounter].
+    induction fuel as [|f IH]; intros y r q Ry; cbn [preg gen_react_EventBasedCounter].
     - destruct y; reflexivity.
-    - exact (gen_EventBasedCounter_register_eq (mkEnv lsub (gen_react_EventBasedCounter f lsub tm types) tm types) _ tm false q y r IH).
+    - exact (gen_EventBasedCounter_register_eq (mkEnv lsub (gen_react_EventBasedCounter f lsub tm types) tm types) _ tm false q y r IH Ry).
   Qed.
 
   Theorem gen_EventBasedCounter_initialize_eq (E : genv) fuel tm x r :
@@ -247,15 +262,19 @@ Section Counter.
   Qed.
 
   Theorem gen_EventBasedCounter_notify_eq (E : genv) re tm ext e x r :
-    rel re (e_react E) ->
+    rel re (e_react E) -> g_raised x = false ->
     er (eb_notify N KCounter (e_lsub E) tm re ext (emb SC x r) e) = emb SC (gen_EventBasedCounter_notify N E x e) [].
   Proof.
-    intros Hre. destruct e as [ty c st]. unfold eb_notify, gen_EventBasedCounter_notify.
-    cbn [ne_type ne_content ne_stamp std_type py_is_event negb].
-    destruct (etype_eqb ty ETData); cbn [negb]; [|destruct x; reflexivity].
-    unfold py_content_is_int. destruct (p_c c) as [z|] eqn:Hc; cbn [negb].
-    - pose proof (gen_EventBasedCounter_register_eq E re tm ext c x r Hre) as H. rewrite Hc in H. exact H.
-    - apply reg_body_refused with (k := TypeError). cbn [sreg]. rewrite Hc. reflexivity.
+    intros Hre R. destruct e as [ty c st]. destruct x as [s q t ra nf]. cbn [g_raised] in R. subst ra.
+    unfold eb_notify, gen_EventBasedCounter_notify. cbv zeta. cbn [ne_type ne_content ne_stamp std_type].
+    unfold py_is_event, py_is_timed_event, py_timestamp, py_content_is_int, py_content_is_tuple, py_content_len,
+           py_is_number, py_float_ok. cbn [ne_stamp].
+    destruct (etype_eqb ty ETData); destruct (p_c c) as [z|] eqn:Hc;
+      cbv beta iota zeta delta [py_then py_raise g_raised negb andb orb Nat.eqb];
+      first [ reflexivity
+            | pose proof (gen_EventBasedCounter_register_eq E re tm ext c (mkG s q t false nf) r Hre eq_refl) as H; rewrite Hc in H; exact H
+            | eapply reg_body_refused; cbn [sreg g_state]; rewrite Hc; reflexivity ].
+
   Qed.
 
   (* ---- class SimCounter ---- *)
@@ -267,14 +286,18 @@ Section Counter.
   Qed.
 
   Theorem gen_SimCounter_register_eq (E : genv) re tm ext p x r :
-    rel re (e_react E) ->
+    rel re (e_react E) -> g_raised x = false ->
     er (reg_body N (e_lsub E) tm re ext (emb SC x r) p) = emb SC (gen_SimCounter_register N E x (p_c p)) [].
   Proof.
-    intros Hre. unfold gen_SimCounter_register.
-    apply (reg_body_emb N _ SC E re tm ext x r p (cregister (g_state x) (p_c p))
-             (fun x1 => gen_SimCounter__fire_events N E x1 (p_c p))).
-    - reflexivity.
-    - intros x1 r1 R1. apply gen_SimCounter__fire_events_eq; assumption.
+    intros Hre R.
+    rewrite (reg_body_spec N _ SC E re tm ext x r p (cregister (g_state x) (p_c p))
+               (fun x1 => gen_SimCounter__fire_events N E x1 (p_c p)) R);
+      [|reflexivity|intros x1 r1 R1; apply gen_SimCounter__fire_events_eq; assumption].
+    f_equal. destruct x as [s q t ra nf]. cbn [g_raised] in R. subst ra.
+    unfold gen_SimCounter_register, reg_spec, py_has_listeners. cbv zeta. cbn [g_state].
+    destruct (cregister s (p_c p)); destruct (e_lsub E);
+      cbv beta iota zeta delta [py_then py_plain py_raise set_gstate g_raised g_state g_q g_tr g_nofuel negb andb orb];
+      reflexivity.
   Qed.
 
   (* the subscriber's reaction: register from inside notify, at most [fuel] deep *)
@@ -287,9 +310,9 @@ Section Counter.
   Lemma gen_react_SimCounter_rel fuel lsub tm types :
     rel (fun y q => preg N fuel lsub tm false y q) (gen_react_SimCounter fuel lsub tm types).
   Proof.
-    induction fuel as [|f IH]; intros y r q; cbn [preg gen_react_SimCounter].
+    induction fuel as [|f IH]; intros y r q Ry; cbn [preg gen_react_SimCounter].
     - destruct y; reflexivity.
-    - exact (gen_SimCounter_register_eq (mkEnv lsub (gen_react_SimCounter f lsub tm types) tm types) _ tm false q y r IH).
+    - exact (gen_SimCounter_register_eq (mkEnv lsub (gen_react_SimCounter f lsub tm types) tm types) _ tm false q y r IH Ry).
   Qed.
 
   Theorem gen_SimCounter_initialize_eq (E : genv) fuel tm x r :
@@ -301,15 +324,19 @@ Section Counter.
   Qed.
 
   Theorem gen_SimCounter_super_EventBasedCounter_notify_eq (E : genv) re tm ext e x r :
-    rel re (e_react E) ->
+    rel re (e_react E) -> g_raised x = false ->
     er (eb_notify N KCounter (e_lsub E) tm re ext (emb SC x r) e) = emb SC (gen_SimCounter_super_EventBasedCounter_notify N E x e) [].
   Proof.
-    intros Hre. destruct e as [ty c st]. unfold eb_notify, gen_SimCounter_super_EventBasedCounter_notify.
-    cbn [ne_type ne_content ne_stamp std_type py_is_event negb].
-    destruct (etype_eqb ty ETData); cbn [negb]; [|destruct x; reflexivity].
-    unfold py_content_is_int. destruct (p_c c) as [z|] eqn:Hc; cbn [negb].
-    - pose proof (gen_SimCounter_register_eq E re tm ext c x r Hre) as H. rewrite Hc in H. exact H.
-    - apply reg_body_refused with (k := TypeError). cbn [sreg]. rewrite Hc. reflexivity.
+    intros Hre R. destruct e as [ty c st]. destruct x as [s q t ra nf]. cbn [g_raised] in R. subst ra.
+    unfold eb_notify, gen_SimCounter_super_EventBasedCounter_notify. cbv zeta. cbn [ne_type ne_content ne_stamp std_type].
+    unfold py_is_event, py_is_timed_event, py_timestamp, py_content_is_int, py_content_is_tuple, py_content_len,
+           py_is_number, py_float_ok. cbn [ne_stamp].
+    destruct (etype_eqb ty ETData); destruct (p_c c) as [z|] eqn:Hc;
+      cbv beta iota zeta delta [py_then py_raise g_raised negb andb orb Nat.eqb];
+      first [ reflexivity
+            | pose proof (gen_SimCounter_register_eq E re tm ext c (mkG s q t false nf) r Hre eq_refl) as H; rewrite Hc in H; exact H
+            | eapply reg_body_refused; cbn [sreg g_state]; rewrite Hc; reflexivity ].
+
   Qed.
 
   (* SimCounter.notify: the dispatch on the event type.  Every event type is taken apart, so the order
@@ -318,15 +345,15 @@ Section Counter.
     rel (react N f (e_lsub E) (e_tm E)) (e_react E) -> g_raised x = false ->
     er (snotify N KCounter f (e_lsub E) (e_types E) (e_tm E) (emb SC x r) e) = emb SC (gen_SimCounter_notify N E x e) [].
   Proof.
-    intros Hre R. destruct e as [ty c st]. unfold snotify, gen_SimCounter_notify.
+    intros Hre R. destruct e as [ty c st]. unfold snotify, gen_SimCounter_notify. cbv zeta.
     cbn [ne_type ne_content ne_stamp].
     destruct ty; cbn [etype_eqb];
       try (match goal with |- context [et_in ?a (e_types E)] => destruct (et_in a (e_types E)) end);
       unfold py_Event, py_TimedEvent, py_time_float;
       first [ reflexivity
-            | exact (gen_SimCounter_super_EventBasedCounter_notify_eq E _ (e_tm E) true (mkSev ETData c None) x r Hre)
-            | exact (gen_SimCounter_super_EventBasedCounter_notify_eq E _ (e_tm E) true (mkSev ETData c (Some (e_tm E))) x r Hre)
-            | exact (gen_SimCounter_super_EventBasedCounter_notify_eq E _ (e_tm E) true (mkSev ETData c st) x r Hre)
+            | exact (gen_SimCounter_super_EventBasedCounter_notify_eq E _ (e_tm E) true (mkSev ETData c None) x r Hre R)
+            | exact (gen_SimCounter_super_EventBasedCounter_notify_eq E _ (e_tm E) true (mkSev ETData c (Some (e_tm E))) x r Hre R)
+            | exact (gen_SimCounter_super_EventBasedCounter_notify_eq E _ (e_tm E) true (mkSev ETData c st) x r Hre R)
             | apply gen_SimCounter_initialize_eq; [exact Hre|exact R]
             ].
   Qed.
@@ -354,14 +381,18 @@ Section Tally.
   Qed.
 
   Theorem gen_EventBasedTally_register_eq (E : genv) re tm ext p x r :
-    rel re (e_react E) ->
+    rel re (e_react E) -> g_raised x = false ->
     er (reg_body N (e_lsub E) tm re ext (emb ST x r) p) = emb ST (gen_EventBasedTally_register N E x (p_v p)) [].
   Proof.
-    intros Hre. unfold gen_EventBasedTally_register.
-    apply (reg_body_emb N _ ST E re tm ext x r p (tregister N (g_state x) (p_v p))
-             (fun x1 => gen_EventBasedTally__fire_events N E x1 (p_v p))).
-    - reflexivity.
-    - intros x1 r1 R1. apply gen_EventBasedTally__fire_events_eq; assumption.
+    intros Hre R.
+    rewrite (reg_body_spec N _ ST E re tm ext x r p (tregister N (g_state x) (p_v p))
+               (fun x1 => gen_EventBasedTally__fire_events N E x1 (p_v p)) R);
+      [|reflexivity|intros x1 r1 R1; apply gen_EventBasedTally__fire_events_eq; assumption].
+    f_equal. destruct x as [s q t ra nf]. cbn [g_raised] in R. subst ra.
+    unfold gen_EventBasedTally_register, reg_spec, py_has_listeners. cbv zeta. cbn [g_state].
+    destruct (tregister N s (p_v p)); destruct (e_lsub E);
+      cbv beta iota zeta delta [py_then py_plain py_raise set_gstate g_raised g_state g_q g_tr g_nofuel negb andb orb];
+      reflexivity.
   Qed.
 
   (* the subscriber's reaction: register from inside notify, at most [fuel] deep *)
@@ -374,9 +405,9 @@ Section Tally.
   Lemma gen_react_EventBasedTally_rel fuel lsub tm types :
     rel (fun y q => preg N fuel lsub tm false y q) (gen_react_EventBasedTally fuel lsub tm types).
   Proof.
-    induction fuel as [|f IH]; intros y r q; cbn [preg gen_react_EventBasedTally].
+    induction fuel as [|f IH]; intros y r q Ry; cbn [preg gen_react_EventBasedTally].
     - destruct y; reflexivity.
-    - exact (gen_EventBasedTally_register_eq (mkEnv lsub (gen_react_EventBasedTally f lsub tm types) tm types) _ tm false q y r IH).
+    - exact (gen_EventBasedTally_register_eq (mkEnv lsub (gen_react_EventBasedTally f lsub tm types) tm types) _ tm false q y r IH Ry).
   Qed.
 
   Theorem gen_EventBasedTally_initialize_eq (E : genv) fuel tm x r :
@@ -388,17 +419,19 @@ Section Tally.
   Qed.
 
   Theorem gen_EventBasedTally_notify_eq (E : genv) re tm ext e x r :
-    rel re (e_react E) ->
+    rel re (e_react E) -> g_raised x = false ->
     er (eb_notify N KTally (e_lsub E) tm re ext (emb ST x r) e) = emb ST (gen_EventBasedTally_notify N E x e) [].
   Proof.
-    intros Hre. destruct e as [ty c st]. unfold eb_notify, gen_EventBasedTally_notify.
-    cbn [ne_type ne_content ne_stamp std_type py_is_event negb].
-    destruct (etype_eqb ty ETData); cbn [negb]; [|destruct x; reflexivity].
-    unfold py_is_number, py_float_ok. destruct (p_v c) as [v| | |] eqn:Hc; cbn [negb].
-    - pose proof (gen_EventBasedTally_register_eq E re tm ext c x r Hre) as H. rewrite Hc in H. exact H.
-    - pose proof (gen_EventBasedTally_register_eq E re tm ext c x r Hre) as H. rewrite Hc in H. exact H.
-    - apply reg_body_refused with (k := TypeError). cbn [sreg]. rewrite Hc. reflexivity.
-    - apply reg_body_refused with (k := OverflowError). cbn [sreg]. rewrite Hc. reflexivity.
+    intros Hre R. destruct e as [ty c st]. destruct x as [s q t ra nf]. cbn [g_raised] in R. subst ra.
+    unfold eb_notify, gen_EventBasedTally_notify. cbv zeta. cbn [ne_type ne_content ne_stamp std_type].
+    unfold py_is_event, py_is_timed_event, py_timestamp, py_content_is_int, py_content_is_tuple, py_content_len,
+           py_is_number, py_float_ok. cbn [ne_stamp].
+    destruct (etype_eqb ty ETData); destruct (p_v c) as [v| | |] eqn:Hc;
+      cbv beta iota zeta delta [py_then py_raise g_raised negb andb orb Nat.eqb];
+      first [ reflexivity
+            | pose proof (gen_EventBasedTally_register_eq E re tm ext c (mkG s q t false nf) r Hre eq_refl) as H; rewrite Hc in H; exact H
+            | eapply reg_body_refused; cbn [sreg g_state]; rewrite Hc; reflexivity ].
+
   Qed.
 
   (* ---- class SimTally ---- *)
@@ -410,14 +443,18 @@ Section Tally.
   Qed.
 
   Theorem gen_SimTally_register_eq (E : genv) re tm ext p x r :
-    rel re (e_react E) ->
+    rel re (e_react E) -> g_raised x = false ->
     er (reg_body N (e_lsub E) tm re ext (emb ST x r) p) = emb ST (gen_SimTally_register N E x (p_v p)) [].
   Proof.
-    intros Hre. unfold gen_SimTally_register.
-    apply (reg_body_emb N _ ST E re tm ext x r p (tregister N (g_state x) (p_v p))
-             (fun x1 => gen_SimTally__fire_events N E x1 (p_v p))).
-    - reflexivity.
-    - intros x1 r1 R1. apply gen_SimTally__fire_events_eq; assumption.
+    intros Hre R.
+    rewrite (reg_body_spec N _ ST E re tm ext x r p (tregister N (g_state x) (p_v p))
+               (fun x1 => gen_SimTally__fire_events N E x1 (p_v p)) R);
+      [|reflexivity|intros x1 r1 R1; apply gen_SimTally__fire_events_eq; assumption].
+    f_equal. destruct x as [s q t ra nf]. cbn [g_raised] in R. subst ra.
+    unfold gen_SimTally_register, reg_spec, py_has_listeners. cbv zeta. cbn [g_state].
+    destruct (tregister N s (p_v p)); destruct (e_lsub E);
+      cbv beta iota zeta delta [py_then py_plain py_raise set_gstate g_raised g_state g_q g_tr g_nofuel negb andb orb];
+      reflexivity.
   Qed.
 
   (* the subscriber's reaction: register from inside notify, at most [fuel] deep *)
@@ -430,9 +467,9 @@ Section Tally.
   Lemma gen_react_SimTally_rel fuel lsub tm types :
     rel (fun y q => preg N fuel lsub tm false y q) (gen_react_SimTally fuel lsub tm types).
   Proof.
-    induction fuel as [|f IH]; intros y r q; cbn [preg gen_react_SimTally].
+    induction fuel as [|f IH]; intros y r q Ry; cbn [preg gen_react_SimTally].
     - destruct y; reflexivity.
-    - exact (gen_SimTally_register_eq (mkEnv lsub (gen_react_SimTally f lsub tm types) tm types) _ tm false q y r IH).
+    - exact (gen_SimTally_register_eq (mkEnv lsub (gen_react_SimTally f lsub tm types) tm types) _ tm false q y r IH Ry).
   Qed.
 
   Theorem gen_SimTally_initialize_eq (E : genv) fuel tm x r :
@@ -444,17 +481,19 @@ Section Tally.
   Qed.
 
   Theorem gen_SimTally_super_EventBasedTally_notify_eq (E : genv) re tm ext e x r :
-    rel re (e_react E) ->
+    rel re (e_react E) -> g_raised x = false ->
     er (eb_notify N KTally (e_lsub E) tm re ext (emb ST x r) e) = emb ST (gen_SimTally_super_EventBasedTally_notify N E x e) [].
   Proof.
-    intros Hre. destruct e as [ty c st]. unfold eb_notify, gen_SimTally_super_EventBasedTally_notify.
-    cbn [ne_type ne_content ne_stamp std_type py_is_event negb].
-    destruct (etype_eqb ty ETData); cbn [negb]; [|destruct x; reflexivity].
-    unfold py_is_number, py_float_ok. destruct (p_v c) as [v| | |] eqn:Hc; cbn [negb].
-    - pose proof (gen_SimTally_register_eq E re tm ext c x r Hre) as H. rewrite Hc in H. exact H.
-    - pose proof (gen_SimTally_register_eq E re tm ext c x r Hre) as H. rewrite Hc in H. exact H.
-    - apply reg_body_refused with (k := TypeError). cbn [sreg]. rewrite Hc. reflexivity.
-    - apply reg_body_refused with (k := OverflowError). cbn [sreg]. rewrite Hc. reflexivity.
+    intros Hre R. destruct e as [ty c st]. destruct x as [s q t ra nf]. cbn [g_raised] in R. subst ra.
+    unfold eb_notify, gen_SimTally_super_EventBasedTally_notify. cbv zeta. cbn [ne_type ne_content ne_stamp std_type].
+    unfold py_is_event, py_is_timed_event, py_timestamp, py_content_is_int, py_content_is_tuple, py_content_len,
+           py_is_number, py_float_ok. cbn [ne_stamp].
+    destruct (etype_eqb ty ETData); destruct (p_v c) as [v| | |] eqn:Hc;
+      cbv beta iota zeta delta [py_then py_raise g_raised negb andb orb Nat.eqb];
+      first [ reflexivity
+            | pose proof (gen_SimTally_register_eq E re tm ext c (mkG s q t false nf) r Hre eq_refl) as H; rewrite Hc in H; exact H
+            | eapply reg_body_refused; cbn [sreg g_state]; rewrite Hc; reflexivity ].
+
   Qed.
 
   (* SimTally.notify: the dispatch on the event type.  Every event type is taken apart, so the order
@@ -463,15 +502,15 @@ Section Tally.
     rel (react N f (e_lsub E) (e_tm E)) (e_react E) -> g_raised x = false ->
     er (snotify N KTally f (e_lsub E) (e_types E) (e_tm E) (emb ST x r) e) = emb ST (gen_SimTally_notify N E x e) [].
   Proof.
-    intros Hre R. destruct e as [ty c st]. unfold snotify, gen_SimTally_notify.
+    intros Hre R. destruct e as [ty c st]. unfold snotify, gen_SimTally_notify. cbv zeta.
     cbn [ne_type ne_content ne_stamp].
     destruct ty; cbn [etype_eqb];
       try (match goal with |- context [et_in ?a (e_types E)] => destruct (et_in a (e_types E)) end);
       unfold py_Event, py_TimedEvent, py_time_float;
       first [ reflexivity
-            | exact (gen_SimTally_super_EventBasedTally_notify_eq E _ (e_tm E) true (mkSev ETData c None) x r Hre)
-            | exact (gen_SimTally_super_EventBasedTally_notify_eq E _ (e_tm E) true (mkSev ETData c (Some (e_tm E))) x r Hre)
-            | exact (gen_SimTally_super_EventBasedTally_notify_eq E _ (e_tm E) true (mkSev ETData c st) x r Hre)
+            | exact (gen_SimTally_super_EventBasedTally_notify_eq E _ (e_tm E) true (mkSev ETData c None) x r Hre R)
+            | exact (gen_SimTally_super_EventBasedTally_notify_eq E _ (e_tm E) true (mkSev ETData c (Some (e_tm E))) x r Hre R)
+            | exact (gen_SimTally_super_EventBasedTally_notify_eq E _ (e_tm E) true (mkSev ETData c st) x r Hre R)
             | apply gen_SimTally_initialize_eq; [exact Hre|exact R]
             ].
   Qed.
@@ -499,14 +538,18 @@ Section Weighted.
   Qed.
 
   Theorem gen_EventBasedWeightedTally_register_eq (E : genv) re tm ext p x r :
-    rel re (e_react E) ->
+    rel re (e_react E) -> g_raised x = false ->
     er (reg_body N (e_lsub E) tm re ext (emb SW x r) p) = emb SW (gen_EventBasedWeightedTally_register N E x (p_w p) (p_v p)) [].
   Proof.
-    intros Hre. unfold gen_EventBasedWeightedTally_register.
-    apply (reg_body_emb N _ SW E re tm ext x r p (wregister N (g_state x) (p_w p) (p_v p))
-             (fun x1 => gen_EventBasedWeightedTally__fire_events N E x1 (p_v p))).
-    - reflexivity.
-    - intros x1 r1 R1. apply gen_EventBasedWeightedTally__fire_events_eq; assumption.
+    intros Hre R.
+    rewrite (reg_body_spec N _ SW E re tm ext x r p (wregister N (g_state x) (p_w p) (p_v p))
+               (fun x1 => gen_EventBasedWeightedTally__fire_events N E x1 (p_v p)) R);
+      [|reflexivity|intros x1 r1 R1; apply gen_EventBasedWeightedTally__fire_events_eq; assumption].
+    f_equal. destruct x as [s q t ra nf]. cbn [g_raised] in R. subst ra.
+    unfold gen_EventBasedWeightedTally_register, reg_spec, py_has_listeners. cbv zeta. cbn [g_state].
+    destruct (wregister N s (p_w p) (p_v p)); destruct (e_lsub E);
+      cbv beta iota zeta delta [py_then py_plain py_raise set_gstate g_raised g_state g_q g_tr g_nofuel negb andb orb];
+      reflexivity.
   Qed.
 
   (* the subscriber's reaction: register from inside notify, at most [fuel] deep *)
@@ -519,9 +562,9 @@ Section Weighted.
   Lemma gen_react_EventBasedWeightedTally_rel fuel lsub tm types :
     rel (fun y q => preg N fuel lsub tm false y q) (gen_react_EventBasedWeightedTally fuel lsub tm types).
   Proof.
-    induction fuel as [|f IH]; intros y r q; cbn [preg gen_react_EventBasedWeightedTally].
+    induction fuel as [|f IH]; intros y r q Ry; cbn [preg gen_react_EventBasedWeightedTally].
     - destruct y; reflexivity.
-    - exact (gen_EventBasedWeightedTally_register_eq (mkEnv lsub (gen_react_EventBasedWeightedTally f lsub tm types) tm types) _ tm false q y r IH).
+    - exact (gen_EventBasedWeightedTally_register_eq (mkEnv lsub (gen_react_EventBasedWeightedTally f lsub tm types) tm types) _ tm false q y r IH Ry).
   Qed.
 
   Theorem gen_EventBasedWeightedTally_initialize_eq (E : genv) fuel tm x r :
@@ -533,18 +576,19 @@ Section Weighted.
   Qed.
 
   Theorem gen_EventBasedWeightedTally_notify_eq (E : genv) re tm ext e x r :
-    rel re (e_react E) ->
+    rel re (e_react E) -> g_raised x = false ->
     er (eb_notify N KWeighted (e_lsub E) tm re ext (emb SW x r) e) = emb SW (gen_EventBasedWeightedTally_notify N E x e) [].
   Proof.
-    intros Hre. destruct e as [ty c st]. unfold eb_notify, gen_EventBasedWeightedTally_notify.
-    cbn [ne_type ne_content ne_stamp std_type negb].
-    destruct (etype_eqb ty ETWeightData); cbn [negb]; [|destruct x; reflexivity].
-    unfold py_content_is_tuple, py_content_len, py_is_number, py_float_ok. cbn [Nat.eqb negb].
-    destruct (p_w c) as [w| | |] eqn:Hw; destruct (p_v c) as [v| | |] eqn:Hv; cbn [negb];
-      try (pose proof (gen_EventBasedWeightedTally_register_eq E re tm ext c x r Hre) as H; rewrite Hw, Hv in H; exact H);
-      (destruct (wregister_refuses N (g_state x) (p_w c) (p_v c)) as [k Hk];
-       [rewrite Hw, Hv; reflexivity|];
-       apply reg_body_refused with (k := k); cbn [sreg]; rewrite Hk; reflexivity).
+    intros Hre R. destruct e as [ty c st]. destruct x as [s q t ra nf]. cbn [g_raised] in R. subst ra.
+    unfold eb_notify, gen_EventBasedWeightedTally_notify. cbv zeta. cbn [ne_type ne_content ne_stamp std_type].
+    unfold py_is_event, py_is_timed_event, py_timestamp, py_content_is_int, py_content_is_tuple, py_content_len,
+           py_is_number, py_float_ok. cbn [ne_stamp].
+    destruct (etype_eqb ty ETWeightData); destruct (p_w c) as [w| | |] eqn:Hw; destruct (p_v c) as [v| | |] eqn:Hv;
+      cbv beta iota zeta delta [py_then py_raise g_raised negb andb orb Nat.eqb];
+      first [ reflexivity
+            | pose proof (gen_EventBasedWeightedTally_register_eq E re tm ext c (mkG s q t false nf) r Hre eq_refl) as H; rewrite Hw, Hv in H; exact H
+            | destruct (wregister_refuses N s (p_w c) (p_v c)) as [k Hk]; [rewrite Hw, Hv; reflexivity|]; eapply reg_body_refused with (k := k); cbn [sreg g_state]; rewrite Hk; reflexivity ].
+
   Qed.
 
   (* ---- class SimWeightedTally ---- *)
@@ -556,14 +600,18 @@ Section Weighted.
   Qed.
 
   Theorem gen_SimWeightedTally_register_eq (E : genv) re tm ext p x r :
-    rel re (e_react E) ->
+    rel re (e_react E) -> g_raised x = false ->
     er (reg_body N (e_lsub E) tm re ext (emb SW x r) p) = emb SW (gen_SimWeightedTally_register N E x (p_w p) (p_v p)) [].
   Proof.
-    intros Hre. unfold gen_SimWeightedTally_register.
-    apply (reg_body_emb N _ SW E re tm ext x r p (wregister N (g_state x) (p_w p) (p_v p))
-             (fun x1 => gen_SimWeightedTally__fire_events N E x1 (p_v p))).
-    - reflexivity.
-    - intros x1 r1 R1. apply gen_SimWeightedTally__fire_events_eq; assumption.
+    intros Hre R.
+    rewrite (reg_body_spec N _ SW E re tm ext x r p (wregister N (g_state x) (p_w p) (p_v p))
+               (fun x1 => gen_SimWeightedTally__fire_events N E x1 (p_v p)) R);
+      [|reflexivity|intros x1 r1 R1; apply gen_SimWeightedTally__fire_events_eq; assumption].
+    f_equal. destruct x as [s q t ra nf]. cbn [g_raised] in R. subst ra.
+    unfold gen_SimWeightedTally_register, reg_spec, py_has_listeners. cbv zeta. cbn [g_state].
+    destruct (wregister N s (p_w p) (p_v p)); destruct (e_lsub E);
+      cbv beta iota zeta delta [py_then py_plain py_raise set_gstate g_raised g_state g_q g_tr g_nofuel negb andb orb];
+      reflexivity.
   Qed.
 
   (* the subscriber's reaction: register from inside notify, at most [fuel] deep *)
@@ -576,9 +624,9 @@ Section Weighted.
   Lemma gen_react_SimWeightedTally_rel fuel lsub tm types :
     rel (fun y q => preg N fuel lsub tm false y q) (gen_react_SimWeightedTally fuel lsub tm types).
   Proof.
-    induction fuel as [|f IH]; intros y r q; cbn [preg gen_react_SimWeightedTally].
+    induction fuel as [|f IH]; intros y r q Ry; cbn [preg gen_react_SimWeightedTally].
     - destruct y; reflexivity.
-    - exact (gen_SimWeightedTally_register_eq (mkEnv lsub (gen_react_SimWeightedTally f lsub tm types) tm types) _ tm false q y r IH).
+    - exact (gen_SimWeightedTally_register_eq (mkEnv lsub (gen_react_SimWeightedTally f lsub tm types) tm types) _ tm false q y r IH Ry).
   Qed.
 
   Theorem gen_SimWeightedTally_initialize_eq (E : genv) fuel tm x r :
@@ -590,18 +638,19 @@ Section Weighted.
   Qed.
 
   Theorem gen_SimWeightedTally_super_EventBasedWeightedTally_notify_eq (E : genv) re tm ext e x r :
-    rel re (e_react E) ->
+    rel re (e_react E) -> g_raised x = false ->
     er (eb_notify N KWeighted (e_lsub E) tm re ext (emb SW x r) e) = emb SW (gen_SimWeightedTally_super_EventBasedWeightedTally_notify N E x e) [].
   Proof.
-    intros Hre. destruct e as [ty c st]. unfold eb_notify, gen_SimWeightedTally_super_EventBasedWeightedTally_notify.
-    cbn [ne_type ne_content ne_stamp std_type negb].
-    destruct (etype_eqb ty ETWeightData); cbn [negb]; [|destruct x; reflexivity].
-    unfold py_content_is_tuple, py_content_len, py_is_number, py_float_ok. cbn [Nat.eqb negb].
-    destruct (p_w c) as [w| | |] eqn:Hw; destruct (p_v c) as [v| | |] eqn:Hv; cbn [negb];
-      try (pose proof (gen_SimWeightedTally_register_eq E re tm ext c x r Hre) as H; rewrite Hw, Hv in H; exact H);
-      (destruct (wregister_refuses N (g_state x) (p_w c) (p_v c)) as [k Hk];
-       [rewrite Hw, Hv; reflexivity|];
-       apply reg_body_refused with (k := k); cbn [sreg]; rewrite Hk; reflexivity).
+    intros Hre R. destruct e as [ty c st]. destruct x as [s q t ra nf]. cbn [g_raised] in R. subst ra.
+    unfold eb_notify, gen_SimWeightedTally_super_EventBasedWeightedTally_notify. cbv zeta. cbn [ne_type ne_content ne_stamp std_type].
+    unfold py_is_event, py_is_timed_event, py_timestamp, py_content_is_int, py_content_is_tuple, py_content_len,
+           py_is_number, py_float_ok. cbn [ne_stamp].
+    destruct (etype_eqb ty ETWeightData); destruct (p_w c) as [w| | |] eqn:Hw; destruct (p_v c) as [v| | |] eqn:Hv;
+      cbv beta iota zeta delta [py_then py_raise g_raised negb andb orb Nat.eqb];
+      first [ reflexivity
+            | pose proof (gen_SimWeightedTally_register_eq E re tm ext c (mkG s q t false nf) r Hre eq_refl) as H; rewrite Hw, Hv in H; exact H
+            | destruct (wregister_refuses N s (p_w c) (p_v c)) as [k Hk]; [rewrite Hw, Hv; reflexivity|]; eapply reg_body_refused with (k := k); cbn [sreg g_state]; rewrite Hk; reflexivity ].
+
   Qed.
 
   (* SimWeightedTally.notify: the dispatch on the event type.  Every event type is taken apart, so the order
@@ -610,15 +659,15 @@ Section Weighted.
     rel (react N f (e_lsub E) (e_tm E)) (e_react E) -> g_raised x = false ->
     er (snotify N KWeighted f (e_lsub E) (e_types E) (e_tm E) (emb SW x r) e) = emb SW (gen_SimWeightedTally_notify N E x e) [].
   Proof.
-    intros Hre R. destruct e as [ty c st]. unfold snotify, gen_SimWeightedTally_notify.
+    intros Hre R. destruct e as [ty c st]. unfold snotify, gen_SimWeightedTally_notify. cbv zeta.
     cbn [ne_type ne_content ne_stamp].
     destruct ty; cbn [etype_eqb];
       try (match goal with |- context [et_in ?a (e_types E)] => destruct (et_in a (e_types E)) end);
       unfold py_Event, py_TimedEvent, py_time_float;
       first [ reflexivity
-            | exact (gen_SimWeightedTally_super_EventBasedWeightedTally_notify_eq E _ (e_tm E) true (mkSev ETWeightData c None) x r Hre)
-            | exact (gen_SimWeightedTally_super_EventBasedWeightedTally_notify_eq E _ (e_tm E) true (mkSev ETWeightData c (Some (e_tm E))) x r Hre)
-            | exact (gen_SimWeightedTally_super_EventBasedWeightedTally_notify_eq E _ (e_tm E) true (mkSev ETWeightData c st) x r Hre)
+            | exact (gen_SimWeightedTally_super_EventBasedWeightedTally_notify_eq E _ (e_tm E) true (mkSev ETWeightData c None) x r Hre R)
+            | exact (gen_SimWeightedTally_super_EventBasedWeightedTally_notify_eq E _ (e_tm E) true (mkSev ETWeightData c (Some (e_tm E))) x r Hre R)
+            | exact (gen_SimWeightedTally_super_EventBasedWeightedTally_notify_eq E _ (e_tm E) true (mkSev ETWeightData c st) x r Hre R)
             | apply gen_SimWeightedTally_initialize_eq; [exact Hre|exact R]
             ].
   Qed.
@@ -657,14 +706,18 @@ Section Persistent.
   Qed.
 
   Theorem gen_EventBasedTimestampWeightedTally_register_eq (E : genv) re tm ext p x r :
-    rel re (e_react E) ->
+    rel re (e_react E) -> g_raised x = false ->
     er (reg_body N (e_lsub E) tm re ext (emb SP x r) p) = emb SP (gen_EventBasedTimestampWeightedTally_register N E x (ONum tm) (p_v p)) [].
   Proof.
-    intros Hre. unfold gen_EventBasedTimestampWeightedTally_register.
-    apply (reg_body_emb N _ SP E re tm ext x r p (tsregister N (g_state x) (ONum tm) (p_v p))
-             (fun x1 => gen_EventBasedTimestampWeightedTally__fire_events N E x1 (ONum tm) (p_v p))).
-    - reflexivity.
-    - intros x1 r1 R1. apply gen_EventBasedTimestampWeightedTally__fire_events_eq; assumption.
+    intros Hre R.
+    rewrite (reg_body_spec N _ SP E re tm ext x r p (tsregister N (g_state x) (ONum tm) (p_v p))
+               (fun x1 => gen_EventBasedTimestampWeightedTally__fire_events N E x1 (ONum tm) (p_v p)) R);
+      [|reflexivity|intros x1 r1 R1; apply gen_EventBasedTimestampWeightedTally__fire_events_eq; assumption].
+    f_equal. destruct x as [s q t ra nf]. cbn [g_raised] in R. subst ra.
+    unfold gen_EventBasedTimestampWeightedTally_register, reg_spec, py_has_listeners. cbv zeta. cbn [g_state].
+    destruct (tsregister N s (ONum tm) (p_v p)); destruct (e_lsub E);
+      cbv beta iota zeta delta [py_then py_plain py_raise set_gstate g_raised g_state g_q g_tr g_nofuel negb andb orb];
+      reflexivity.
   Qed.
 
   (* the subscriber's reaction: register from inside notify, at most [fuel] deep *)
@@ -677,9 +730,9 @@ Section Persistent.
   Lemma gen_react_EventBasedTimestampWeightedTally_rel fuel lsub tm types :
     rel (fun y q => preg N fuel lsub tm false y q) (gen_react_EventBasedTimestampWeightedTally fuel lsub tm types).
   Proof.
-    induction fuel as [|f IH]; intros y r q; cbn [preg gen_react_EventBasedTimestampWeightedTally].
+    induction fuel as [|f IH]; intros y r q Ry; cbn [preg gen_react_EventBasedTimestampWeightedTally].
     - destruct y; reflexivity.
-    - exact (gen_EventBasedTimestampWeightedTally_register_eq (mkEnv lsub (gen_react_EventBasedTimestampWeightedTally f lsub tm types) tm types) _ tm false q y r IH).
+    - exact (gen_EventBasedTimestampWeightedTally_register_eq (mkEnv lsub (gen_react_EventBasedTimestampWeightedTally f lsub tm types) tm types) _ tm false q y r IH Ry).
   Qed.
 
   Theorem gen_EventBasedTimestampWeightedTally_initialize_eq (E : genv) fuel tm x r :
@@ -691,27 +744,28 @@ Section Persistent.
   Qed.
 
   Theorem gen_EventBasedTimestampWeightedTally_notify_eq (E : genv) re tm ext e x r :
-    rel re (e_react E) ->
+    rel re (e_react E) -> g_raised x = false ->
     er (eb_notify N KPersistent (e_lsub E) tm re ext (emb SP x r) e) = emb SP (gen_EventBasedTimestampWeightedTally_notify N E x e) [].
   Proof.
-    intros Hre. destruct e as [ty c st]. unfold eb_notify, gen_EventBasedTimestampWeightedTally_notify.
-    cbn [ne_type ne_content ne_stamp std_type negb]. unfold py_is_timed_event, py_timestamp. cbn [ne_stamp].
-    destruct st as [t|]; cbn [negb]; [|destruct (etype_eqb ty ETTimestampData); destruct x; reflexivity].
-    destruct (etype_eqb ty ETTimestampData); cbn [negb]; [|destruct x; reflexivity].
-    unfold py_is_number, py_float_ok. destruct (p_v c) as [v| | |] eqn:Hc; cbn [negb].
-    - pose proof (gen_EventBasedTimestampWeightedTally_register_eq E re t ext c x r Hre) as H. rewrite Hc in H. exact H.
-    - pose proof (gen_EventBasedTimestampWeightedTally_register_eq E re t ext c x r Hre) as H. rewrite Hc in H. exact H.
-    - apply reg_body_refused with (k := TypeError). cbn [sreg]. rewrite Hc. reflexivity.
-    - apply reg_body_refused with (k := OverflowError). cbn [sreg]. rewrite Hc. reflexivity.
+    intros Hre R. destruct e as [ty c st]. destruct x as [s q t ra nf]. cbn [g_raised] in R. subst ra.
+    unfold eb_notify, gen_EventBasedTimestampWeightedTally_notify. cbv zeta. cbn [ne_type ne_content ne_stamp std_type].
+    unfold py_is_event, py_is_timed_event, py_timestamp, py_content_is_int, py_content_is_tuple, py_content_len,
+           py_is_number, py_float_ok. cbn [ne_stamp].
+    destruct (etype_eqb ty ETTimestampData); destruct st as [ts|]; destruct (p_v c) as [v| | |] eqn:Hc;
+      cbv beta iota zeta delta [py_then py_raise g_raised negb andb orb Nat.eqb];
+      first [ reflexivity
+            | pose proof (gen_EventBasedTimestampWeightedTally_register_eq E re ts ext c (mkG s q t false nf) r Hre eq_refl) as H; rewrite Hc in H; exact H
+            | eapply reg_body_refused; cbn [sreg g_state]; rewrite Hc; reflexivity ].
+
   Qed.
 
   Theorem gen_EventBasedTimestampWeightedTally_end_observations_eq (E : genv) f tm x r :
-    rel (fun y q => preg N f (e_lsub E) tm false y q) (e_react E) ->
+    rel (fun y q => preg N f (e_lsub E) tm false y q) (e_react E) -> g_raised x = false ->
     er (pclose N (S f) (e_lsub E) tm (emb SP x r)) = emb SP (gen_EventBasedTimestampWeightedTally_end_observations N E x (ONum tm)) [].
   Proof.
-    intros Hre. unfold pclose, gen_EventBasedTimestampWeightedTally_end_observations. cbn [Gen_SimStats.emb ps_state].
+    intros Hre R. unfold pclose, gen_EventBasedTimestampWeightedTally_end_observations. cbv zeta. cbn [Gen_SimStats.emb ps_state].
     apply pclose_tail.
-    exact (gen_EventBasedTimestampWeightedTally_register_eq E _ tm true (mkP CNotInt ONotNumber (ONum (ts_lastval (g_state x)))) x r Hre).
+    exact (gen_EventBasedTimestampWeightedTally_register_eq E _ tm true (mkP CNotInt ONotNumber (ONum (ts_lastval (g_state x)))) x r Hre R).
   Qed.
 
   (* ---- class SimPersistent ---- *)
@@ -723,14 +777,18 @@ Section Persistent.
   Qed.
 
   Theorem gen_SimPersistent_register_eq (E : genv) re tm ext p x r :
-    rel re (e_react E) ->
+    rel re (e_react E) -> g_raised x = false ->
     er (reg_body N (e_lsub E) tm re ext (emb SP x r) p) = emb SP (gen_SimPersistent_register N E x (ONum tm) (p_v p)) [].
   Proof.
-    intros Hre. unfold gen_SimPersistent_register.
-    apply (reg_body_emb N _ SP E re tm ext x r p (tsregister N (g_state x) (ONum tm) (p_v p))
-             (fun x1 => gen_SimPersistent__fire_events N E x1 (ONum tm) (p_v p))).
-    - reflexivity.
-    - intros x1 r1 R1. apply gen_SimPersistent__fire_events_eq; assumption.
+    intros Hre R.
+    rewrite (reg_body_spec N _ SP E re tm ext x r p (tsregister N (g_state x) (ONum tm) (p_v p))
+               (fun x1 => gen_SimPersistent__fire_events N E x1 (ONum tm) (p_v p)) R);
+      [|reflexivity|intros x1 r1 R1; apply gen_SimPersistent__fire_events_eq; assumption].
+    f_equal. destruct x as [s q t ra nf]. cbn [g_raised] in R. subst ra.
+    unfold gen_SimPersistent_register, reg_spec, py_has_listeners. cbv zeta. cbn [g_state].
+    destruct (tsregister N s (ONum tm) (p_v p)); destruct (e_lsub E);
+      cbv beta iota zeta delta [py_then py_plain py_raise set_gstate g_raised g_state g_q g_tr g_nofuel negb andb orb];
+      reflexivity.
   Qed.
 
   (* the subscriber's reaction: register from inside notify, at most [fuel] deep *)
@@ -743,9 +801,9 @@ Section Persistent.
   Lemma gen_react_SimPersistent_rel fuel lsub tm types :
     rel (fun y q => preg N fuel lsub tm false y q) (gen_react_SimPersistent fuel lsub tm types).
   Proof.
-    induction fuel as [|f IH]; intros y r q; cbn [preg gen_react_SimPersistent].
+    induction fuel as [|f IH]; intros y r q Ry; cbn [preg gen_react_SimPersistent].
     - destruct y; reflexivity.
-    - exact (gen_SimPersistent_register_eq (mkEnv lsub (gen_react_SimPersistent f lsub tm types) tm types) _ tm false q y r IH).
+    - exact (gen_SimPersistent_register_eq (mkEnv lsub (gen_react_SimPersistent f lsub tm types) tm types) _ tm false q y r IH Ry).
   Qed.
 
   Theorem gen_SimPersistent_initialize_eq (E : genv) fuel tm x r :
@@ -757,27 +815,28 @@ Section Persistent.
   Qed.
 
   Theorem gen_SimPersistent_super_EventBasedTimestampWeightedTally_notify_eq (E : genv) re tm ext e x r :
-    rel re (e_react E) ->
+    rel re (e_react E) -> g_raised x = false ->
     er (eb_notify N KPersistent (e_lsub E) tm re ext (emb SP x r) e) = emb SP (gen_SimPersistent_super_EventBasedTimestampWeightedTally_notify N E x e) [].
   Proof.
-    intros Hre. destruct e as [ty c st]. unfold eb_notify, gen_SimPersistent_super_EventBasedTimestampWeightedTally_notify.
-    cbn [ne_type ne_content ne_stamp std_type negb]. unfold py_is_timed_event, py_timestamp. cbn [ne_stamp].
-    destruct st as [t|]; cbn [negb]; [|destruct (etype_eqb ty ETTimestampData); destruct x; reflexivity].
-    destruct (etype_eqb ty ETTimestampData); cbn [negb]; [|destruct x; reflexivity].
-    unfold py_is_number, py_float_ok. destruct (p_v c) as [v| | |] eqn:Hc; cbn [negb].
-    - pose proof (gen_SimPersistent_register_eq E re t ext c x r Hre) as H. rewrite Hc in H. exact H.
-    - pose proof (gen_SimPersistent_register_eq E re t ext c x r Hre) as H. rewrite Hc in H. exact H.
-    - apply reg_body_refused with (k := TypeError). cbn [sreg]. rewrite Hc. reflexivity.
-    - apply reg_body_refused with (k := OverflowError). cbn [sreg]. rewrite Hc. reflexivity.
+    intros Hre R. destruct e as [ty c st]. destruct x as [s q t ra nf]. cbn [g_raised] in R. subst ra.
+    unfold eb_notify, gen_SimPersistent_super_EventBasedTimestampWeightedTally_notify. cbv zeta. cbn [ne_type ne_content ne_stamp std_type].
+    unfold py_is_event, py_is_timed_event, py_timestamp, py_content_is_int, py_content_is_tuple, py_content_len,
+           py_is_number, py_float_ok. cbn [ne_stamp].
+    destruct (etype_eqb ty ETTimestampData); destruct st as [ts|]; destruct (p_v c) as [v| | |] eqn:Hc;
+      cbv beta iota zeta delta [py_then py_raise g_raised negb andb orb Nat.eqb];
+      first [ reflexivity
+            | pose proof (gen_SimPersistent_register_eq E re ts ext c (mkG s q t false nf) r Hre eq_refl) as H; rewrite Hc in H; exact H
+            | eapply reg_body_refused; cbn [sreg g_state]; rewrite Hc; reflexivity ].
+
   Qed.
 
   Theorem gen_SimPersistent_end_observations_eq (E : genv) f tm x r :
-    rel (fun y q => preg N f (e_lsub E) tm false y q) (e_react E) ->
+    rel (fun y q => preg N f (e_lsub E) tm false y q) (e_react E) -> g_raised x = false ->
     er (pclose N (S f) (e_lsub E) tm (emb SP x r)) = emb SP (gen_SimPersistent_end_observations N E x (ONum tm)) [].
   Proof.
-    intros Hre. unfold pclose, gen_SimPersistent_end_observations. cbn [Gen_SimStats.emb ps_state].
+    intros Hre R. unfold pclose, gen_SimPersistent_end_observations. cbv zeta. cbn [Gen_SimStats.emb ps_state].
     apply pclose_tail.
-    exact (gen_SimPersistent_register_eq E _ tm true (mkP CNotInt ONotNumber (ONum (ts_lastval (g_state x)))) x r Hre).
+    exact (gen_SimPersistent_register_eq E _ tm true (mkP CNotInt ONotNumber (ONum (ts_lastval (g_state x)))) x r Hre R).
   Qed.
 
   (* SimPersistent.notify: the dispatch on the event type.  Every event type is taken apart, so the order
@@ -786,17 +845,17 @@ Section Persistent.
     rel (react N f (e_lsub E) (e_tm E)) (e_react E) -> g_raised x = false ->
     er (snotify N KPersistent f (e_lsub E) (e_types E) (e_tm E) (emb SP x r) e) = emb SP (gen_SimPersistent_notify N E x e) [].
   Proof.
-    intros Hre R. destruct e as [ty c st]. unfold snotify, gen_SimPersistent_notify.
+    intros Hre R. destruct e as [ty c st]. unfold snotify, gen_SimPersistent_notify. cbv zeta.
     cbn [ne_type ne_content ne_stamp].
     destruct ty; cbn [etype_eqb];
       try (match goal with |- context [et_in ?a (e_types E)] => destruct (et_in a (e_types E)) end);
       unfold py_Event, py_TimedEvent, py_time_float;
       first [ reflexivity
-            | exact (gen_SimPersistent_super_EventBasedTimestampWeightedTally_notify_eq E _ (e_tm E) true (mkSev ETTimestampData c None) x r Hre)
-            | exact (gen_SimPersistent_super_EventBasedTimestampWeightedTally_notify_eq E _ (e_tm E) true (mkSev ETTimestampData c (Some (e_tm E))) x r Hre)
-            | exact (gen_SimPersistent_super_EventBasedTimestampWeightedTally_notify_eq E _ (e_tm E) true (mkSev ETTimestampData c st) x r Hre)
+            | exact (gen_SimPersistent_super_EventBasedTimestampWeightedTally_notify_eq E _ (e_tm E) true (mkSev ETTimestampData c None) x r Hre R)
+            | exact (gen_SimPersistent_super_EventBasedTimestampWeightedTally_notify_eq E _ (e_tm E) true (mkSev ETTimestampData c (Some (e_tm E))) x r Hre R)
+            | exact (gen_SimPersistent_super_EventBasedTimestampWeightedTally_notify_eq E _ (e_tm E) true (mkSev ETTimestampData c st) x r Hre R)
             | apply gen_SimPersistent_initialize_eq; [exact Hre|exact R]
-            | apply gen_SimPersistent_end_observations_eq; exact Hre
+            | apply gen_SimPersistent_end_observations_eq; [exact Hre|exact R]
             ].
   Qed.
 End Persistent.
@@ -821,10 +880,10 @@ Qed.
 Theorem gen_DSOLModel_add_output_statistic_eq d k st :
   gen_DSOLModel_add_output_statistic d k st = m_add_output_statistic d k st.
 Proof.
-  unfold gen_DSOLModel_add_output_statistic, m_add_output_statistic, py_dict_has, reg_add.
-  destruct (reg_get k d) eqn:G; [reflexivity|]. destruct st as [sid|]; cbn [py_is_statistic negb py_stat_id].
-  - rewrite dict_set_fresh; [reflexivity|exact G].
-  - reflexivity.
+  unfold gen_DSOLModel_add_output_statistic, m_add_output_statistic, py_dict_has, reg_add. cbv zeta.
+  destruct (reg_get k d) eqn:G; destruct st as [sid|];
+    cbv beta iota zeta delta [negb py_is_statistic py_stat_id andb orb d_then];
+    rewrite ?dict_set_fresh by exact G; reflexivity.
 Qed.
 
 Theorem gen_DSOLModel_get_output_statistic_eq d k : gen_DSOLModel_get_output_statistic d k = reg_get k d.
@@ -869,31 +928,23 @@ Proof. ctor_cases; reflexivity. Qed.
 
 (* subscriptions (WARMUP for all, END_REPLICATION for the persistent one, the data event at the
    producer), the attributes, the registration under the key -- in the order of the source *)
-Ltac ctor_eq listen_eq :=
-  intros; ctor_cases; try reflexivity;
-  cbv beta iota zeta delta [py_key_is_str py_is_simulator py_prod_is_none py_et_is_none py_sim_has_model negb orb c_then
-                            py_producer_init py_plain_init py_key_str m_ctor];
-  cbn [c_then]; try rewrite listen_eq; cbn [m_listen_to c_then];
-  try rewrite gen_DSOLModel_add_output_statistic_eq; try reflexivity.
+Ltac ctor_eq :=
+  intros; ctor_cases;
+  cbv -[gen_DSOLModel_add_output_statistic m_add_output_statistic add_sub set_add sub_mem reg_get reg_add];
+  rewrite ?gen_DSOLModel_add_output_statistic_eq; reflexivity.
 
 Theorem gen_SimCounter___init___eq sid c key nm sm pr et :
   gen_SimCounter___init__ sid c key nm sm pr et = m_ctor KCounter sid key nm sm pr et c.
-Proof. unfold gen_SimCounter___init__, gen_SimCounter_super_EventBasedCounter___init__. ctor_eq gen_SimCounter_listen_to_eq. Qed.
+Proof. ctor_eq. Qed.
 Theorem gen_SimTally___init___eq sid c key nm sm pr et :
   gen_SimTally___init__ sid c key nm sm pr et = m_ctor KTally sid key nm sm pr et c.
-Proof. unfold gen_SimTally___init__, gen_SimTally_super_EventBasedTally___init__. ctor_eq gen_SimTally_listen_to_eq. Qed.
+Proof. ctor_eq. Qed.
 Theorem gen_SimWeightedTally___init___eq sid c key nm sm pr et :
   gen_SimWeightedTally___init__ sid c key nm sm pr et = m_ctor KWeighted sid key nm sm pr et c.
-Proof.
-  unfold gen_SimWeightedTally___init__, gen_SimWeightedTally_super_EventBasedWeightedTally___init__.
-  ctor_eq gen_SimWeightedTally_listen_to_eq.
-Qed.
+Proof. ctor_eq. Qed.
 Theorem gen_SimPersistent___init___eq sid c key nm sm pr et :
   gen_SimPersistent___init__ sid c key nm sm pr et = m_ctor KPersistent sid key nm sm pr et c.
-Proof.
-  unfold gen_SimPersistent___init__, gen_SimPersistent_super_EventBasedTimestampWeightedTally___init__.
-  ctor_eq gen_SimPersistent_listen_to_eq.
-Qed.
+Proof. ctor_eq. Qed.
 
 (* the constructor / listen_to of the class a declaration names *)
 Definition gen_ctor (k : skind) (sid : nat) (key : pykey) (nm : pynm) (sm : pysim) (pr : pyprod) (et : pyetarg)
@@ -1596,22 +1647,22 @@ Theorem simstats_publishing_agree (N : Num) :
   (* class EventBasedCounter *)
   (forall (E : genv N cstate) re p x r, react_rel N cstate SC re (e_react E) -> g_raised x = false ->
      er (fire_all N (e_lsub E) re p (emb SC x r)) = emb SC (gen_EventBasedCounter__fire_events N E x (p_c p)) []) /\
-  (forall (E : genv N cstate) re tm ext p x r, react_rel N cstate SC re (e_react E) ->
+  (forall (E : genv N cstate) re tm ext p x r, react_rel N cstate SC re (e_react E) -> g_raised x = false ->
      er (reg_body N (e_lsub E) tm re ext (emb SC x r) p) = emb SC (gen_EventBasedCounter_register N E x (p_c p)) []) /\
   (forall (E : genv N cstate) fuel tm x r,
      react_rel N cstate SC (fun y q => preg N fuel (e_lsub E) tm false y q) (e_react E) -> g_raised x = false ->
      er (pinit N fuel (e_lsub E) tm (emb SC x r)) = emb SC (gen_EventBasedCounter_initialize N E x) []) /\
-  (forall (E : genv N cstate) re tm ext e x r, react_rel N cstate SC re (e_react E) ->
+  (forall (E : genv N cstate) re tm ext e x r, react_rel N cstate SC re (e_react E) -> g_raised x = false ->
      er (eb_notify N KCounter (e_lsub E) tm re ext (emb SC x r) e) = emb SC (gen_EventBasedCounter_notify N E x e) []) /\
   (* class SimCounter *)
   (forall (E : genv N cstate) re p x r, react_rel N cstate SC re (e_react E) -> g_raised x = false ->
      er (fire_all N (e_lsub E) re p (emb SC x r)) = emb SC (gen_SimCounter__fire_events N E x (p_c p)) []) /\
-  (forall (E : genv N cstate) re tm ext p x r, react_rel N cstate SC re (e_react E) ->
+  (forall (E : genv N cstate) re tm ext p x r, react_rel N cstate SC re (e_react E) -> g_raised x = false ->
      er (reg_body N (e_lsub E) tm re ext (emb SC x r) p) = emb SC (gen_SimCounter_register N E x (p_c p)) []) /\
   (forall (E : genv N cstate) fuel tm x r,
      react_rel N cstate SC (fun y q => preg N fuel (e_lsub E) tm false y q) (e_react E) -> g_raised x = false ->
      er (pinit N fuel (e_lsub E) tm (emb SC x r)) = emb SC (gen_SimCounter_initialize N E x) []) /\
-  (forall (E : genv N cstate) re tm ext e x r, react_rel N cstate SC re (e_react E) ->
+  (forall (E : genv N cstate) re tm ext e x r, react_rel N cstate SC re (e_react E) -> g_raised x = false ->
      er (eb_notify N KCounter (e_lsub E) tm re ext (emb SC x r) e) = emb SC (gen_SimCounter_super_EventBasedCounter_notify N E x e) []) /\
   (forall (E : genv N cstate) f e x r,
      react_rel N cstate SC (react N f (e_lsub E) (e_tm E)) (e_react E) -> g_raised x = false ->
@@ -1619,22 +1670,22 @@ Theorem simstats_publishing_agree (N : Num) :
   (* class EventBasedTally *)
   (forall (E : genv N (tstate N)) re p x r, react_rel N (tstate N) ST re (e_react E) -> g_raised x = false ->
      er (fire_all N (e_lsub E) re p (emb ST x r)) = emb ST (gen_EventBasedTally__fire_events N E x (p_v p)) []) /\
-  (forall (E : genv N (tstate N)) re tm ext p x r, react_rel N (tstate N) ST re (e_react E) ->
+  (forall (E : genv N (tstate N)) re tm ext p x r, react_rel N (tstate N) ST re (e_react E) -> g_raised x = false ->
      er (reg_body N (e_lsub E) tm re ext (emb ST x r) p) = emb ST (gen_EventBasedTally_register N E x (p_v p)) []) /\
   (forall (E : genv N (tstate N)) fuel tm x r,
      react_rel N (tstate N) ST (fun y q => preg N fuel (e_lsub E) tm false y q) (e_react E) -> g_raised x = false ->
      er (pinit N fuel (e_lsub E) tm (emb ST x r)) = emb ST (gen_EventBasedTally_initialize N E x) []) /\
-  (forall (E : genv N (tstate N)) re tm ext e x r, react_rel N (tstate N) ST re (e_react E) ->
+  (forall (E : genv N (tstate N)) re tm ext e x r, react_rel N (tstate N) ST re (e_react E) -> g_raised x = false ->
      er (eb_notify N KTally (e_lsub E) tm re ext (emb ST x r) e) = emb ST (gen_EventBasedTally_notify N E x e) []) /\
   (* class SimTally *)
   (forall (E : genv N (tstate N)) re p x r, react_rel N (tstate N) ST re (e_react E) -> g_raised x = false ->
      er (fire_all N (e_lsub E) re p (emb ST x r)) = emb ST (gen_SimTally__fire_events N E x (p_v p)) []) /\
-  (forall (E : genv N (tstate N)) re tm ext p x r, react_rel N (tstate N) ST re (e_react E) ->
+  (forall (E : genv N (tstate N)) re tm ext p x r, react_rel N (tstate N) ST re (e_react E) -> g_raised x = false ->
      er (reg_body N (e_lsub E) tm re ext (emb ST x r) p) = emb ST (gen_SimTally_register N E x (p_v p)) []) /\
   (forall (E : genv N (tstate N)) fuel tm x r,
      react_rel N (tstate N) ST (fun y q => preg N fuel (e_lsub E) tm false y q) (e_react E) -> g_raised x = false ->
      er (pinit N fuel (e_lsub E) tm (emb ST x r)) = emb ST (gen_SimTally_initialize N E x) []) /\
-  (forall (E : genv N (tstate N)) re tm ext e x r, react_rel N (tstate N) ST re (e_react E) ->
+  (forall (E : genv N (tstate N)) re tm ext e x r, react_rel N (tstate N) ST re (e_react E) -> g_raised x = false ->
      er (eb_notify N KTally (e_lsub E) tm re ext (emb ST x r) e) = emb ST (gen_SimTally_super_EventBasedTally_notify N E x e) []) /\
   (forall (E : genv N (tstate N)) f e x r,
      react_rel N (tstate N) ST (react N f (e_lsub E) (e_tm E)) (e_react E) -> g_raised x = false ->
@@ -1642,22 +1693,22 @@ Theorem simstats_publishing_agree (N : Num) :
   (* class EventBasedWeightedTally *)
   (forall (E : genv N (wstate N)) re p x r, react_rel N (wstate N) SW re (e_react E) -> g_raised x = false ->
      er (fire_all N (e_lsub E) re p (emb SW x r)) = emb SW (gen_EventBasedWeightedTally__fire_events N E x (p_v p)) []) /\
-  (forall (E : genv N (wstate N)) re tm ext p x r, react_rel N (wstate N) SW re (e_react E) ->
+  (forall (E : genv N (wstate N)) re tm ext p x r, react_rel N (wstate N) SW re (e_react E) -> g_raised x = false ->
      er (reg_body N (e_lsub E) tm re ext (emb SW x r) p) = emb SW (gen_EventBasedWeightedTally_register N E x (p_w p) (p_v p)) []) /\
   (forall (E : genv N (wstate N)) fuel tm x r,
      react_rel N (wstate N) SW (fun y q => preg N fuel (e_lsub E) tm false y q) (e_react E) -> g_raised x = false ->
      er (pinit N fuel (e_lsub E) tm (emb SW x r)) = emb SW (gen_EventBasedWeightedTally_initialize N E x) []) /\
-  (forall (E : genv N (wstate N)) re tm ext e x r, react_rel N (wstate N) SW re (e_react E) ->
+  (forall (E : genv N (wstate N)) re tm ext e x r, react_rel N (wstate N) SW re (e_react E) -> g_raised x = false ->
      er (eb_notify N KWeighted (e_lsub E) tm re ext (emb SW x r) e) = emb SW (gen_EventBasedWeightedTally_notify N E x e) []) /\
   (* class SimWeightedTally *)
   (forall (E : genv N (wstate N)) re p x r, react_rel N (wstate N) SW re (e_react E) -> g_raised x = false ->
      er (fire_all N (e_lsub E) re p (emb SW x r)) = emb SW (gen_SimWeightedTally__fire_events N E x (p_v p)) []) /\
-  (forall (E : genv N (wstate N)) re tm ext p x r, react_rel N (wstate N) SW re (e_react E) ->
+  (forall (E : genv N (wstate N)) re tm ext p x r, react_rel N (wstate N) SW re (e_react E) -> g_raised x = false ->
      er (reg_body N (e_lsub E) tm re ext (emb SW x r) p) = emb SW (gen_SimWeightedTally_register N E x (p_w p) (p_v p)) []) /\
   (forall (E : genv N (wstate N)) fuel tm x r,
      react_rel N (wstate N) SW (fun y q => preg N fuel (e_lsub E) tm false y q) (e_react E) -> g_raised x = false ->
      er (pinit N fuel (e_lsub E) tm (emb SW x r)) = emb SW (gen_SimWeightedTally_initialize N E x) []) /\
-  (forall (E : genv N (wstate N)) re tm ext e x r, react_rel N (wstate N) SW re (e_react E) ->
+  (forall (E : genv N (wstate N)) re tm ext e x r, react_rel N (wstate N) SW re (e_react E) -> g_raised x = false ->
      er (eb_notify N KWeighted (e_lsub E) tm re ext (emb SW x r) e) = emb SW (gen_SimWeightedTally_super_EventBasedWeightedTally_notify N E x e) []) /\
   (forall (E : genv N (wstate N)) f e x r,
      react_rel N (wstate N) SW (react N f (e_lsub E) (e_tm E)) (e_react E) -> g_raised x = false ->
@@ -1665,28 +1716,28 @@ Theorem simstats_publishing_agree (N : Num) :
   (* class EventBasedTimestampWeightedTally *)
   (forall (E : genv N (tsstate N)) re p ts x r, react_rel N (tsstate N) SP re (e_react E) -> g_raised x = false ->
      er (fire_all N (e_lsub E) re p (emb SP x r)) = emb SP (gen_EventBasedTimestampWeightedTally__fire_events N E x ts (p_v p)) []) /\
-  (forall (E : genv N (tsstate N)) re tm ext p x r, react_rel N (tsstate N) SP re (e_react E) ->
+  (forall (E : genv N (tsstate N)) re tm ext p x r, react_rel N (tsstate N) SP re (e_react E) -> g_raised x = false ->
      er (reg_body N (e_lsub E) tm re ext (emb SP x r) p) = emb SP (gen_EventBasedTimestampWeightedTally_register N E x (ONum tm) (p_v p)) []) /\
   (forall (E : genv N (tsstate N)) fuel tm x r,
      react_rel N (tsstate N) SP (fun y q => preg N fuel (e_lsub E) tm false y q) (e_react E) -> g_raised x = false ->
      er (pinit N fuel (e_lsub E) tm (emb SP x r)) = emb SP (gen_EventBasedTimestampWeightedTally_initialize N E x) []) /\
-  (forall (E : genv N (tsstate N)) re tm ext e x r, react_rel N (tsstate N) SP re (e_react E) ->
+  (forall (E : genv N (tsstate N)) re tm ext e x r, react_rel N (tsstate N) SP re (e_react E) -> g_raised x = false ->
      er (eb_notify N KPersistent (e_lsub E) tm re ext (emb SP x r) e) = emb SP (gen_EventBasedTimestampWeightedTally_notify N E x e) []) /\
   (forall (E : genv N (tsstate N)) f tm x r,
-     react_rel N (tsstate N) SP (fun y q => preg N f (e_lsub E) tm false y q) (e_react E) ->
+     react_rel N (tsstate N) SP (fun y q => preg N f (e_lsub E) tm false y q) (e_react E) -> g_raised x = false ->
      er (pclose N (S f) (e_lsub E) tm (emb SP x r)) = emb SP (gen_EventBasedTimestampWeightedTally_end_observations N E x (ONum tm)) []) /\
   (* class SimPersistent *)
   (forall (E : genv N (tsstate N)) re p ts x r, react_rel N (tsstate N) SP re (e_react E) -> g_raised x = false ->
      er (fire_all N (e_lsub E) re p (emb SP x r)) = emb SP (gen_SimPersistent__fire_events N E x ts (p_v p)) []) /\
-  (forall (E : genv N (tsstate N)) re tm ext p x r, react_rel N (tsstate N) SP re (e_react E) ->
+  (forall (E : genv N (tsstate N)) re tm ext p x r, react_rel N (tsstate N) SP re (e_react E) -> g_raised x = false ->
      er (reg_body N (e_lsub E) tm re ext (emb SP x r) p) = emb SP (gen_SimPersistent_register N E x (ONum tm) (p_v p)) []) /\
   (forall (E : genv N (tsstate N)) fuel tm x r,
      react_rel N (tsstate N) SP (fun y q => preg N fuel (e_lsub E) tm false y q) (e_react E) -> g_raised x = false ->
      er (pinit N fuel (e_lsub E) tm (emb SP x r)) = emb SP (gen_SimPersistent_initialize N E x) []) /\
-  (forall (E : genv N (tsstate N)) re tm ext e x r, react_rel N (tsstate N) SP re (e_react E) ->
+  (forall (E : genv N (tsstate N)) re tm ext e x r, react_rel N (tsstate N) SP re (e_react E) -> g_raised x = false ->
      er (eb_notify N KPersistent (e_lsub E) tm re ext (emb SP x r) e) = emb SP (gen_SimPersistent_super_EventBasedTimestampWeightedTally_notify N E x e) []) /\
   (forall (E : genv N (tsstate N)) f tm x r,
-     react_rel N (tsstate N) SP (fun y q => preg N f (e_lsub E) tm false y q) (e_react E) ->
+     react_rel N (tsstate N) SP (fun y q => preg N f (e_lsub E) tm false y q) (e_react E) -> g_raised x = false ->
      er (pclose N (S f) (e_lsub E) tm (emb SP x r)) = emb SP (gen_SimPersistent_end_observations N E x (ONum tm)) []) /\
   (forall (E : genv N (tsstate N)) f e x r,
      react_rel N (tsstate N) SP (react N f (e_lsub E) (e_tm E)) (e_react E) -> g_raised x = false ->
